@@ -124,6 +124,26 @@ def run_c04(ctx):
             run_olh(ctx, 'sigm', ['-corpus', os.path.join(ctx['root'], 'corpus', 'C04')] + twin_args(ctx, ['-raw', '15000', '-vb', '20000', '-olvm', '62'], ['-raw', '300000', '-vb', '400000', '-olvm', '600']))]
 
 
+def run_c19(ctx):
+    if ctx['tier'] == 'quick':
+        return [run_olh(ctx, 'alleg', ['-histories', '160', '-blocks', '22', '-maxtxs', '7'])]
+    out = []
+    for k in range(3):  # several derived seeds
+        c = dict(ctx, seed=ctx['seed'] * 7919 + k)
+        out.append(run_olh(c, 'alleg', ['-histories', '1200', '-blocks', '26', '-maxtxs', '8'], name=f'alleg{k}'))
+    return out
+
+
+def run_c14(ctx):
+    return [run_olh(ctx, 'gov', twin_args(ctx, ['-histories', '120', '-blocks', '26', '-maxtxs', '7'], ['-histories', '1500', '-blocks', '32', '-maxtxs', '8']))]
+
+
+def run_c10(ctx):
+    corpus = os.path.join(ctx['root'], 'corpus', 'C10')
+    return [run_olh(ctx, 'elect', ['-corpus', corpus] + twin_args(ctx, ['-histories', '400', '-blocks', '24', '-maxtxs', '5', '-heap', '300'],
+                                                                    ['-histories', '6000', '-blocks', '28', '-maxtxs', '5', '-heap', '4000']))]
+
+
 SHELL_ASSUME = [
     'handlers are abstracted as arbitrary interaction-tree programs; the side conditions of the generic theorems (AllAimed, NoVset, EnvFree, GasBlind, VolDerived) are discharged for the real code by the regenerated fact tables (T3, `decide`) where a static fact exists, and otherwise exercised dynamically by the twin-replica engines',
     'the shell model is tied to app/controller.go by the `shell` engine: every ABCI call of generated histories (with CheckTx calls and restarts mixed in) is re-run by the Lean model with handlers abstracted to their observed writes; block-cache digests, results, index short-circuits, commit write logs (replayed into IAVL against the real application hash) and Info after restarts must agree',
@@ -297,13 +317,14 @@ PROPS = {
         required_theorems=['one_ledger', 'one_ledger_history', 'step_keeps_cache_empty', 'stale_cache_breaks_one_ledger',
                            'sender_debit_exact', 'feepool_credit_exact', 'gas_used_within_limit', 'recipient_credit_exact',
                            'created_contract_credit_exact', 'bystander_untouched', 'nonce_plus_one', 'precheck_failure_noop',
-                           'checktx_changes_nothing', 'olvm_conserves_value_partial', 'selfdestruct_creates_value',
+                           'checktx_changes_nothing', 'olvm_conserves_value', 'olvm_conserves_value_balanced_effs',
+                           'olvm_conserves_value_no_inner_moves', 'selfdestruct_conserves_value',
                            'nonce_above_state_executes_and_can_be_reused'],
         run=run_c17, replay=replay_olh('olvm'), level='proof',
         assumptions=['the run of the EVM interpreter (go-ethereum v1.10.8, trusted) is a parameter of the model: gas left, refund counter, error flag, returned-code flag and the ordered balance-changing calls it made on the StateDB interface (SubBalance / AddBalance / Suicide) that survived its own reverts, plus the addresses whose balance entries its reverts undid; in the correspondence these come from a reference run of the same interpreter on go-ethereum\'s own state (core/state over a memory db), not from the implementation',
-                     'signature recovery (EIP-155), chain-id comparison, JSON / RLP sizes and strconv.ParseUint of the memo are decoded facts of a transaction (Tx.sigOk, chainOk, senderOk, size, memo); keccak is not modelled: the address of a created contract is an input',
-                     'the theorems about an executed transaction are stated for an empty EVM object cache (an invariant of every history: step_keeps_cache_empty), no negative stored balance of the credited account (C02), and - for the exact sender / recipient / bystander equalities - accounts whose balance the contract code itself does not move; value conservation is proved for runs without a surviving SELFDESTRUCT (the code loses the ledger there, KF-C17-1)'],
-        model_limits='contract storage, code bytes and logs are not modelled (C16); precompile recipients and contracts that CREATE are neither generated nor modelled; transactions that make Validate panic (signature field not 65 bytes, payload without chain id) close the node and belong to C18: the model marks them as panic, the generator does not produce them; branches of the model that the application cannot reach through ABCI in this tree because Validate runs first (TransitionDb nonce / EOA / funds / intrinsic-gas errors, ContractFeeHandling gas overflow, EVM.Call / create insufficient balance, address collision) are covered by the theorems but not by the correspondence; in the finite-block-gas family a transaction whose gas limit is within 3000 of what the block has left is not compared (the harness cannot observe the pool at the instant of buyGas)'),
+                     'signature recovery (EIP-155), chain-id comparison, JSON / RLP sizes and strconv.ParseUint of the memo are decoded facts of a transaction (Tx.sigOk, chainNil, chainOk, senderOk, size, memo); keccak is not modelled: the address of a created contract is an input',
+                     'the theorems about an executed transaction are stated for an empty EVM object cache (an invariant of every history: step_keeps_cache_empty) and - for the exact sender / recipient / bystander equalities - accounts whose balance the contract code itself does not move; value conservation (olvm_conserves_value) assumes only the interpreter\'s own contract: the balance calls it makes on the state it is handed net to zero (an inner transfer credits what it debits, SELFDESTRUCT pays the beneficiary what Suicide then clears)'],
+        model_limits='contract storage, code bytes and logs are not modelled (C16); precompile recipients, contracts that CREATE and payloads that fail to unmarshal are neither generated nor modelled; branches of the model that the application cannot reach through ABCI in this tree because Validate runs first (TransitionDb nonce / EOA / funds / intrinsic-gas errors, ContractFeeHandling gas overflow, EVM.Call / create insufficient balance, address collision, a panicking SubBalance) are covered by the theorems but not by the correspondence; in the finite-block-gas family a transaction whose gas limit is within 3000 of what the block has left is not compared (the harness cannot observe the pool at the instant of buyGas) and a history ends before a transaction that could use up the block gas (that ends in logger.Fatal at EndBlock, C18)'),
     'C04': dict(
         lean_modules=['OLP.Props.C04', 'OLP.Props.C04Facts'], namespaces=['OLP.Props.C04'],
         required_theorems=['validateBasic_iff', 'validateBasic_never_panics', 'signature_count_mismatch_rejected', 'substituted_signer_rejected',
@@ -321,4 +342,55 @@ PROPS = {
             'the shell model (checkTx / deliverTx) is tied to app/controller.go by the `shell` engine of C01/C05-C08; RawBytes(), ValidateBasic with the four key handlers, and the OLVM validateSigner are tied by the `sigm` engine on every run',
         ],
         model_limits='the library primitives (ed25519 / secp256k1 / go-ethereum / btcec point parsing, address hashes, signature verification, EIP-155 sender recovery) are uninterpreted parameters answered by the real libraries in the correspondence run; the JSON *decoder* is not modelled (unser is a proof device; acceptance of non-canonical encodings is C05); Go < 1.22 escapes \\b and \\f as \\u0008 / \\u000c, so nodes built with different toolchains would disagree on RawBytes() of such memos (outside the model); internal transactions created by block hooks (ExpireProposals / FinalizeProposals) do not pass Validate and are outside this property'),
+    'C19': dict(
+        lean_modules=['OLP.Props.C19'], namespaces=['OLP.Props.C19'],
+        required_theorems=['verdict_iff_threshold', 'required_is_ceiling', 'tally_follows_verdict', 'guilty_only_by_verdict',
+                           'one_vote_per_validator', 'second_vote_rejected', 'only_active_can_allege_or_vote',
+                           'guilty_frozen_until_release', 'frozen_cannot_stake_unstake_withdraw', 'guilty_cannot_stake_until_release',
+                           'penalty_exact_and_bounty_le_penalty', 'release_only_after_time', 'release_only_after_time_partial',
+                           'tally_order_independent', 'guilty_dropped_from_set_partial', 'votes_are_of_currently_active_partial',
+                           'cleanup_keeps_requests_partial',
+                           'departed_voter_still_counts', 'innocent_without_crossing_if_float_inexact', 'frozen_elected_inside_first_window',
+                           'frozen_owner_withdraws_naming_other_address', 'missed_votes_record_lifts_release_time', 'empty_id_request_dropped'],
+        run=run_c19, replay=replay_olh('alleg'), level='proof',
+        assumptions=[
+            'float64 / big.Float: the expressions of ExecuteAllegationTracker (required votes = ceil(active*vote%), yes/required > alleg%, no/required > 1-alleg%, penalty = Int(stake*base%+0.5)) are PARAMETERS of the model (FloatOps); the theorems about thresholds and amounts assume they agree with exact rationals (Exact F). The harness evaluates the same Go expressions on every tally and counts every point where they differ from the exact reading (distribution float:*): they differ only for `no/required > 1 - pct/dec` at exact ties (known finding KF-C19-2); the penalty is exact for stake*base% < 2^53',
+            'block times are whole seconds in UTC, so LastValidatorHistory.FrozenAt.AddDate(0,0,d) is +86400*d seconds',
+            'the heap order in which GetEndBlockUpdate pops the validators is an input of the election model (it is C10\'s subject); the harness obtains it from the repo\'s own queue types on the committed records',
+            'transaction admission (signatures, fee payer has a validator record) enters the model as two flags computed by the harness from the transaction bytes and the pre-state; balances, maturity and the validator-record side of STAKE/UNSTAKE/WITHDRAW belong to C11 (only their allegation guards and delegation-store effects are modelled)',
+            'State.IterateRange walks the keys of the COMMITTED tree only (values read through the caches): the model carries the committed request ids explicitly; two allegations against one address in one block both succeed and CleanTracker removes the second at the block end',
+        ],
+        model_limits='the monitor checks "drops out of the validator set" on the application\'s own election (update list and status records) and, for validators that keep a record, on the simulated Tendermint set after 6 blocks; a validator whose record was deleted at power 0 is never purged again (observed; C10). Errors of balance.AddToAddress / delayHandleUnstake inside the tally (the `continue` paths after them) are not modelled (never observed). Six deviations from the property as stated are confirmed on the implementation and listed in known_findings.json; their witnesses (proved counterexamples in Props/C19.lean) are replayed in every run.'),
+    'C14': dict(
+        lean_modules=['OLP.Props.C14'], namespaces=['OLP.Props.C14'],
+        required_theorems=['wf_init', 'wf_reachable', 'active_copy_is_exclusive', 'stage_monotone', 'stage_monotone_history',
+                           'voting_starts_only_at_goal_before_deadline', 'expire_only_after_deadline_partial', 'expire_any_time_by_anyone',
+                           'outcome_follows_snapshot_votes_partial', 'float_rounding_decides_at_exact_boundary', 'snapshot_fixed_when_voting_begins',
+                           'config_applied_only_for_passed_proposal', 'config_applied_at_most_once',
+                           'funds_returned_in_full_on_cancel_or_miss', 'withdrawal_pays_beneficiary_in_full',
+                           'escrow_lowered_only_by_own_withdrawal_or_distribution', 'distributed_once_le_contributed', 'finalize_idempotent',
+                           'gov_handlers_conserves_value', 'gov_history_conserves_value', 'distribution_conserves_value'],
+        run=run_c14, replay=replay_olh('gov'), level='proof',
+        assumptions=[
+            'float64 expressions of ResultSoFar are parameters of the model (Env.geDiv, Env.ltOneMinus); the decision theorem assumes they agree with the rational comparisons (Env.Exact). Measured every run by a sweep of the Go float expressions over all 0<=x<=total<=120, pass 1..100: the pass comparison `x/total >= pass/100` is exact; the fail comparison `(1.0 - x/total) < pass/100` is NOT exact at 75 exact boundaries (7 of them with pass in the admissible range 51..80: pass 66, 67, 68), see known finding KF-C14-2; the correspondence driver executes the comparisons with IEEE doubles, so model and implementation agree there as well',
+            'distribution percentages enter as the integers int64(percentage*10000) computed by the harness with the same Go expression (exact for percentages with at most two decimals that are binary-representable after scaling; the awkward family 33.33/16.67/0.07 is driven through the correspondence)',
+            'staking / proposal / evidence option groups are opaque in the model: an update of one of their keys is accepted iff the whole updated group validates, which in the small genesis family is never the case (Env.otherValid = false in the driver; every such proposal is predicted to be rejected at creation and the prediction is compared with the application); fee and ONS option updates are modelled exactly',
+            'validator records, evidence status records and balances are changed by other subsystems between governance steps (ops setVals / setBal of the model); the correspondence feeds every step with the records decoded from the application at that moment',
+            'DistOK (percentages non-negative, at most 100 % in total) and OptsOK (initial funding thresholds non-negative) are hypotheses on the option record; genesis is not validated by the application (DESIGN App. C), option updates of these fields are rejected by ValidateProposal',
+            'at least one committed validator record at distribution time (else the code divides by zero, suspect S20, which belongs to C18: the model returns Res.crash)',
+        ],
+        model_limits='one model step = one handler execution with the fee as an input (price x gas used, read from the DeliverTx response); signatures, fee-price validation and gas metering belong to C04/C09; Validate is modelled for the amount signs and the validator check only; headline / description strings are not modelled; a fund or vote key deleted and re-created inside one block is modelled as freshly uncommitted (unreachable: records are deleted only at finalisation); EndBlock expiry / finalisation order across different proposals is the key order of the internal queue store (modelled by sorting ids); the internal queue itself is not observable and is tied through its effect at EndBlock (the `end` step receives the items as of BeginBlock); branches never reached by the generator because earlier checks exclude them: statusNotCompleted, finalize-time invalidOptions / finalizeConfigUpdateFailed, configuration update failing validation at finalisation, gettingValidatorList, feeFailed, DeleteAllFunds error'),
+    'C10': dict(
+        lean_modules=['OLP.Props.C10'], namespaces=['OLP.Props.C10'],
+        required_theorems=['heap_pop_sorted', 'updates_sorted_by_pubkey', 'positive_update_rule', 'at_most_top_count', 'prefers_higher_stake',
+                           'removal_only_last_active', 'removal_only_last_active_once', 'no_duplicate_keys_partial', 'duplicate_keys_possible',
+                           'frozen_not_elected_partial', 'frozen_elected_inside_first_window', 'tm_accepts_single_block_partial',
+                           'removals_name_members', 'tm_accepts_step_partial', 'tm_accepts_all_partial', 'empties_validator_set',
+                           'duplicate_key_rejected', 'unsupported_key_type_rejected', 'converges_within_5_partial', 'unstaked_validator_stays_active'],
+        run=run_c10, replay=replay_olh('elect'), level='proof',
+        assumptions=['hook inputs are decoded by the harness from the committed tree of the previous block (v_ records, purged_ heights, es__vss_ statuses, es__ssvk_ frozen records, g_ staking / evidence options through the last-update-height indirection) overlaid with the deliver state\'s pending writes, and from the simulated Tendermint (votes = the real ValidatorSet two heights back); the malicious set of a block = frozen records of the previous block + records written by this BeginBlock, emptied while height <= BlockVotesDiff (ported as `maliciousSet`)',
+                     'Tendermint v0.33.3 validateValidatorUpdates + ValidatorSet.UpdateWithChangeSet is the acceptance rule; its Lean port `TM.apply` is compared with the real functions on every block of every history and on random component cases covering every rejection reason; consensus params are the defaults (PubKeyTypes = [ed25519])',
+                     'an address / public key enters the model as the natural number that orders like its byte string; the Tendermint address of a key is an uninterpreted function `addrOf` in the theorems (hash collisions are outside)',
+                     'the multi-block theorems are conditional on per-block side conditions the code does not establish (BlockOK: keys bound to addresses and of type ed25519, somebody elected, total power in range) and, for convergence, on every member of the pending set having a record; each is shown necessary by a proved counterexample that the engine replays on the real application (known_findings.json KF-C10-1..6)'],
+        model_limits='not in the model: fee distribution inside GetEndBlockUpdate (its division by the total power panics when every record has power 0: monitored as endblock-panics-zero-total-power), UpdateWithdrawReward and ExecuteAllegationTracker (same hook, no influence on the returned list), how stake / unstake / slashing change the records between blocks (C11: the multi-block theorems quantify over arbitrary record sequences), how validators get flagged for missed votes (C19: the malicious set is an input); governance changes of the staking options are exercised through the fork block (applyUpdate) and one scripted CONFIG_UPDATE proposal lifecycle in the valid-range option family (raised minimum self delegation, raised top count), not through generated proposals'),
 }
